@@ -629,6 +629,10 @@ class SymbolTable():
         # Any wildcard imports that appear in one table but not in the other.
         unique_wildcard_imports = self_imports ^ other_imports
 
+        # Symbols to specialise to IntrinsicSymbol once all checks have passed
+        # (so that a failed check leaves both tables unchanged).
+        to_specialise = []
+
         for other_sym in other_table.symbols:
             if other_sym.name not in self or other_sym in symbols_to_skip:
                 continue
@@ -676,10 +680,7 @@ class SymbolTable():
                                 issubclass(IntrinsicSymbol, type(other_sym))):
                             # Take this opportunity to specialise the
                             # symbol(s).
-                            if not isinstance(this_sym, IntrinsicSymbol):
-                                this_sym.specialise(IntrinsicSymbol)
-                            if not isinstance(other_sym, IntrinsicSymbol):
-                                other_sym.specialise(IntrinsicSymbol)
+                            to_specialise.extend([this_sym, other_sym])
                             continue
                     except KeyError:
                         pass
@@ -700,6 +701,10 @@ class SymbolTable():
                         f"There is a name clash for symbol '{this_sym.name}' "
                         f"that cannot be resolved by renaming "
                         f"one of the instances because:\n- {err1}\n- {err2}")
+
+        for sym in to_specialise:
+            if not isinstance(sym, IntrinsicSymbol):
+                sym.specialise(IntrinsicSymbol)
 
     def _add_container_symbols_from_table(self, other_table):
         '''
